@@ -94,6 +94,8 @@ class RepeatingEventBase(EventBase):
             if presentation_time < seg_start:
                 event_id += 1
                 presentation_time += self.interval
+                if self.count > 0 and event_id >= self.count:
+                    break
                 continue
             assert (presentation_time >= seg_start)
             data = self.get_emsg_event_payload(
